@@ -89,6 +89,15 @@ fn refine(mut props: Vec<&'static str>, mis: &Mismatch) -> Vec<&'static str> {
         MisKind::HSaved => props.push("C17"),
         // the wrap-pending position entered or left other than the model allows
         MisKind::PendingCursor | MisKind::HPending => props.push("C02"),
+        // a hidden component changed by a function that has no business changing it: the frame
+        // clause of the property that owns the component ("... no other mode changes")
+        MisKind::HMargins => {
+            props.push("C05");
+            props.push("C06");
+        }
+        MisKind::HOrigin => props.push("C05"),
+        MisKind::HAutowrap | MisKind::HInsert | MisKind::HCharset => props.push("C04"),
+        MisKind::HScreen => props.push("C16"),
         _ => {}
     }
     props.sort();
@@ -250,6 +259,9 @@ fn writes_cells(f: &F) -> bool {
 }
 
 pub struct Diff {
+    /// a parser-register mismatch seen while a sequence is being collected; reported when the
+    /// sequence dispatches, so that it can also be attributed to the function it corrupts
+    deferred: Option<String>,
     pub vt: avt::Vt,
     pub rp: avt::parser::Parser,
     pub pm: PModel,
@@ -259,7 +271,7 @@ pub struct Diff {
 
 impl Diff {
     pub fn new(h: &History) -> Diff {
-        Diff { vt: h.build(), rp: avt::parser::Parser::new(), pm: PModel::new(), m: Model::new(h.cols, h.rows), since_full: 0 }
+        Diff { deferred: None, vt: h.build(), rp: avt::parser::Parser::new(), pm: PModel::new(), m: Model::new(h.cols, h.rows), since_full: 0 }
     }
 
     fn diverge(props: Vec<&'static str>, what: String) -> End {
@@ -309,10 +321,16 @@ impl Diff {
             if let Some(F::Sgr(_)) = mf {
                 props.push("C08");
             }
+            let earlier = self.deferred.take().map(|d| format!(" (earlier: {})", d)).unwrap_or_default();
             return Self::diverge(
                 props,
-                format!("parser output for {:?} in {:?}: real {:?}, table {:?}", ch, st_before, rfm, mf),
+                format!("parser output for {:?} in {:?}: real {:?}, table {:?}{}", ch, st_before, rfm, mf, earlier),
             );
+        }
+        if dispatch || self.pm.st == St::Ground {
+            if let Some(d) = self.deferred.take() {
+                return Self::diverge(vec!["C03"], d);
+            }
         }
 
         // ---- terminal level ----
@@ -397,6 +415,14 @@ impl Diff {
                     mis = compare_parser(&vs, &self.pm);
                 }
                 if let Some(mis) = mis {
+                    if mis.kind == MisKind::HParser && matches!(self.pm.st, St::Escape | St::EscInt | St::CsiEntry | St::CsiParam | St::CsiInt) {
+                        // keep going until the sequence dispatches: the corrupted registers then
+                        // show up in a function, which decides the further attribution
+                        if self.deferred.is_none() {
+                            self.deferred = Some(format!("after {:?} in {:?}: {}", ch, st_before, mis.msg));
+                        }
+                        return End::Ok;
+                    }
                     let props = if mis.kind == MisKind::HParser { vec!["C03"] } else { vec!["C20"] };
                     return Self::diverge(props, format!("after inert char {:?} in {:?}: {}", ch, st_before, mis.msg));
                 }
@@ -461,6 +487,9 @@ pub fn run_history(h: &History, rep: &mut Report, focus: &dyn Fn(&F) -> bool) ->
                 e => return e,
             },
         }
+    }
+    if let Some(d) = d.deferred.take() {
+        return Diff::diverge(vec!["C03"], d);
     }
     // hook vs public API: the soft-wrap mark read through the hook is what TextUnwrapper sees
     for (i, l) in d.vt.lines().iter().enumerate() {
